@@ -18,6 +18,8 @@
 //! Everything handed to the library is simulator-owned: the contained futures (scripted), their
 //! outputs (drop-counted), and the parent wakers (counting `RawWakerVTable`).
 
+mod prace;
+
 use std::collections::VecDeque;
 use std::future::Future;
 use std::pin::Pin;
@@ -1869,6 +1871,7 @@ fn main() {
             entry::<HistScenario>("C15", "hist", "single-threaded operation histories, FutureDeque and LocalFutureDeque"),
             entry::<HistScenario>("C15", "hist-s", "short single-threaded histories (for Miri: UB / leak oracle)"),
             entry::<MtScenario>("C15", "mt", "cross-thread wake / clone / drop of deque wakers racing poll, parent change and deque drop"),
+            entry::<prace::PraceScenario>("C15", "prace", "parent-waker hand-over race: many tiny rounds of wake vs poll-under-the-other-parent, checked after every round"),
         ],
     )
 }
